@@ -99,7 +99,7 @@ theorem step_cinv (B : Blocks K V) (c c' : Config K V) (t : Nat) (hstep : c.step
   -- the step of the thread
   obtain ⟨hole', hout, hD, hU⟩ := runThread_sinv B c.P t th (stepSt c t th)
     (holeOf c.threads) rfl rfl rfl ⟨hS.tree, hS.order, hS.pad⟩ hok (hS.threads th htm) (hinv.disc th htm) hnf
-    (fun hdel => hole_of_stepper hS ht hen hdel)
+    (fun hdel => hole_of_stepper hS ht hen hdel) (fun hdel => hinv.four htm hdel)
   rw [← hr] at hout hD hU
   have hT0 : (stepSt c t th).tree = c.tree := rfl
   rw [hT0] at hout
@@ -185,7 +185,7 @@ theorem step_cinv (B : Blocks K V) (c c' : Config K V) (t : Nat) (hstep : c.step
       have : holeOf c'.threads = holeOf c.threads := by
         rw [hths']; exact holeOf_set_none c.threads t th r.1 ht hpn h2
       rw [this, ← h1]; exact hTO
-  refine ⟨⟨⟨htreeOk, ?_, ?_, ?_, hcfg', hown', ?_⟩, ?_, halive⟩, th, ht, ?_⟩
+  refine ⟨⟨⟨htreeOk, ?_, ?_, ?_, hcfg', hown', ?_⟩, ?_, halive, ?_⟩, th, ht, ?_⟩
   · -- threads
     intro b hb
     obtain ⟨j, hj⟩ := List.getElem?_of_mem hb
@@ -292,6 +292,19 @@ theorem step_cinv (B : Blocks K V) (c c' : Config K V) (t : Nat) (hstep : c.step
     rcases hidx j b hj with ⟨_, e⟩ | ⟨hne, hjo⟩
     · rw [e]; exact hout.disc
     · exact hinv.disc b (List.mem_of_getElem? hjo)
+  · -- order ≥ 4, or nobody deletes
+    rcases hinv.del4 with h4 | hnd
+    · left; rw [horder]; exact h4
+    · right
+      intro b hb
+      obtain ⟨j, hj⟩ := List.getElem?_of_mem hb
+      rcases hidx j b hj with ⟨_, e⟩ | ⟨hne, hjo⟩
+      · obtain ⟨h1, h2⟩ := hnd th htm
+        have := runThread_nodel c.P t th (stepSt c t th) h2 h1
+        rw [← hr] at this
+        rw [e]
+        exact ⟨this.1, by rw [this.2]; exact h2⟩
+      · exact hnd b (List.mem_of_getElem? hjo)
   · -- the frame
     refine ⟨?_, ?_⟩
     · intro id h1 h2
